@@ -351,6 +351,13 @@ def main(tier, seed):
     tasks = []
     for i, (name, tool, args, kinds) in enumerate(option_sets()):
         tasks.append(("tool", (bindir, name, tool, args, kinds, seed * 7919 + i, 12 if quick else 120)))
+    # the same history monitor on the build whose automatic variables start out with a hostile pattern instead of
+    # whatever the previous value left on the stack (-ftrivial-auto-var-init=pattern)
+    patdir = ctx.bin("pat")
+    for i, (name, tool, args, kinds) in enumerate(option_sets()):
+        if quick and i % 3 != seed % 3:
+            continue
+        tasks.append(("tool", (patdir, name, tool, args, kinds, seed * 7919 + 500 + i, 8 if quick else 60)))
     allz = tzif.all_zone_files()
     byname = dict(allz)
     zs = [(n, byname[n]) for n in ("Asia/Hebron", "Asia/Jayapura", "Europe/Berlin", "America/St_Johns", "Asia/Gaza",
@@ -371,7 +378,8 @@ def main(tier, seed):
                 "negative-first, far-future-first, after zif_copy) of zif_local_time/zif_utc_time calls against the "
                 "fresh-handle answer; several zones in one run (dzone matrices and dconv --from-zone/--zone pairs, incl. "
                 "zone names that are prefixes of each other) against one-zone-per-run; compared with the "
-                "fresh-handle answer and the zone-file oracle. distinct_nontrivial = distinct (option set | zone "
+                "fresh-handle answer and the zone-file oracle; the tool histories are repeated on the 'pat' build (automatic "
+                "variables pre-filled with a pattern). distinct_nontrivial = distinct (option set | zone "
                 "history kind, history class, mode)" % (nos, len(zs)))
     ctx.assumptions = ["dseq, dsort and ddiff without a fixed reference are out of scope by the statement",
                        "dgrep expressions are kept to single comparisons here (C17 judges expressions)"]
